@@ -69,6 +69,7 @@ type state struct {
 	flags   map[string]bool    // bool fields of the receiver tested on the way here
 	ghost   int                // number of preserved ("ghost") variables on this path
 	emitted []LinForm          // exactness mode: forms of the indexes stored outside loops, in order
+	bconst  map[ssa.Value]bool // bool values known to be constant on this path (short-circuit phis, results of inlined predicates)
 }
 
 // LinForm is an exact linear form over input symbols: "L" (the length) and "field:<path>".
@@ -157,7 +158,10 @@ type cmp struct {
 }
 
 func (s *state) clone() *state {
-	n := &state{d: s.d.clone(), terms: map[ssa.Value]term{}, slen: map[ssa.Value]term{}, conds: map[ssa.Value]cmp{}, lin: map[int]LinForm{}, flags: map[string]bool{}, ghost: s.ghost, emitted: append([]LinForm(nil), s.emitted...)}
+	n := &state{d: s.d.clone(), terms: map[ssa.Value]term{}, slen: map[ssa.Value]term{}, conds: map[ssa.Value]cmp{}, lin: map[int]LinForm{}, flags: map[string]bool{}, ghost: s.ghost, emitted: append([]LinForm(nil), s.emitted...), bconst: map[ssa.Value]bool{}}
+	for k, v := range s.bconst {
+		n.bconst[k] = v
+	}
 	for k, v := range s.lin {
 		n.lin[k] = v
 	}
@@ -584,7 +588,7 @@ func (a *Analysis) Run() {
 		a.problem("entry %s is not a method with one int parameter", load.FuncName(fn))
 		return
 	}
-	st := &state{d: newDBM(maxVars), terms: map[ssa.Value]term{}, slen: map[ssa.Value]term{}, conds: map[ssa.Value]cmp{}, lin: map[int]LinForm{}, flags: map[string]bool{}}
+	st := &state{d: newDBM(maxVars), terms: map[ssa.Value]term{}, slen: map[ssa.Value]term{}, conds: map[ssa.Value]cmp{}, lin: map[int]LinForm{}, flags: map[string]bool{}, bconst: map[ssa.Value]bool{}}
 	a.lenVar = a.varFor(fn.Params[1])
 	st.lin[a.lenVar] = LinForm{Coef: map[string]int64{"L": 1}}
 	st.d.constrain(a.lenVar, 0, a.maxLen)
@@ -631,6 +635,18 @@ func (a *Analysis) applyPhis(s *state, b, pred *ssa.BasicBlock) {
 			break
 		}
 		e := ph.Edges[idx]
+		if bt, isB := ph.Type().Underlying().(*types.Basic); isB && bt.Kind() == types.Bool {
+			delete(s.bconst, ph)
+			delete(s.conds, ph)
+			if c, isC := e.(*ssa.Const); isC && c.Value != nil {
+				s.bconst[ph] = c.Value.String() == "true"
+			} else if v, known := s.bconst[e]; known {
+				s.bconst[ph] = v
+			} else if cm, known := s.conds[e]; known {
+				s.conds[ph] = cm
+			}
+			continue
+		}
 		if isInt(ph.Type()) {
 			as = append(as, asg{phi: ph, t: a.termOf(s, e)})
 		} else if _, isSlice := ph.Type().Underlying().(*types.Slice); isSlice {
@@ -795,6 +811,19 @@ func (a *Analysis) execFrom(fn *ssa.Function, loops []*cfgutil.Loop, b *ssa.Basi
 						// call's result its own variable
 						a.copyInto(ns, x, a.termOf(ns, o.ret))
 					}
+					if o.ret != nil {
+						if bt, isB := x.Type().Underlying().(*types.Basic); isB && bt.Kind() == types.Bool {
+							delete(ns.bconst, x)
+							delete(ns.conds, x)
+							if c, isC := o.ret.(*ssa.Const); isC && c.Value != nil {
+								ns.bconst[x] = c.Value.String() == "true"
+							} else if v, known := ns.bconst[o.ret]; known {
+								ns.bconst[x] = v
+							} else if cm, known := ns.conds[o.ret]; known {
+								ns.conds[x] = cm
+							}
+						}
+					}
 					outs = append(outs, a.execFrom(fn, loops, b, i+1, pred, ns, lc)...)
 				}
 				return outs
@@ -804,7 +833,11 @@ func (a *Analysis) execFrom(fn *ssa.Function, loops []*cfgutil.Loop, b *ssa.Basi
 			var outs []outcome
 			c, known := st.conds[x.Cond]
 			flagPath, flagNeg := a.boolFieldCond(x.Cond)
+			bv, bknown := st.bconst[x.Cond]
 			for k, succ := range b.Succs {
+				if bknown && bv != (k == 0) {
+					continue // the condition is a known constant on this path
+				}
 				ns := st.clone()
 				if flagPath != "" {
 					val := (k == 0) != flagNeg
